@@ -581,6 +581,14 @@ func evalComparisonPredicate(q sql.ComparisonPredicate, qfields storage.Fields, 
 		return lhs == rhs, nil
 	case sql.NEQ:
 		return lhs != rhs, nil
+	}
+
+	if lhs == nil || rhs == nil {
+		// NULL is neither smaller nor greater than anything
+		return false, nil
+	}
+
+	switch q.CompOp {
 	case sql.GT:
 		switch lhs := lhs.(type) {
 		case int64:
